@@ -6,7 +6,7 @@ from ..core import model as M
 ID = "C02"
 ENGINE = "seqsim"
 LEVEL = "exploration"
-RUNS = {"quick": 24000, "thorough": 400000}
+RUNS = {"quick": 100000, "thorough": 400000}
 CHUNK = 250
 WorldClass = _unbuf.StaleWorld
 RULE = ("seeded histories interleaving every read API (and mutators through attached handles) on 1-3 objects and "
